@@ -185,7 +185,7 @@ def main(tier=None):
         for rank, lines in r.ranks.items():
             for ln, o in lines.items():
                 if o.get('op') in ('put', 'rbuf'): ck.outcomes.add((o.get('op'), o.get('rc'), o.get('mod')))
-    bfs = HistoryBFS(ck, b['vx'], [abuf_init()], abuf_alphabet(thorough), maxdepth=6 if thorough else 4, reps=1, snap=False, classify=classify)
+    bfs = HistoryBFS(ck, b['vx'], [abuf_init()], abuf_alphabet(thorough), maxdepth=7 if thorough else 5, reps=1, snap=False, classify=classify)
     bfs.run(deadline=time.time() + (1200 if thorough else 150))
     ck.cov['evaluations'] += nev
     ck.cov['buffer_cases'] = nev
